@@ -25,6 +25,8 @@ import (
 	"verifharness/oracle"
 )
 
+var _ = oracle.DefaultTol
+
 func Optimizers(name string) []logicalplan.Optimizer {
 	switch name {
 	case "", "default":
@@ -178,3 +180,20 @@ func fmtErr(err error) string {
 func parserParse(q string) (parser.Expr, error) { return parser.ParseExpr(q) }
 
 func containsStr(s, sub string) bool { return strings.Contains(s, sub) }
+
+// TolOf returns the value tolerance for a case. Variance-like reductions are
+// ill-conditioned when the spread of their input is small against its magnitude,
+// and the reference engine itself assembles intermediate range results from a Go
+// map (its summation order varies from run to run), so queries that contain them
+// are compared with a wider tolerance whose absolute floor is in squared units.
+func TolOf(c *core.Case) oracle.Tol {
+	scale := Scale(c.Series)
+	q := c.Query
+	for _, a := range c.Hist {
+		q += " " + a.Query
+	}
+	if strings.Contains(q, "stddev") || strings.Contains(q, "stdvar") || strings.Contains(q, "deriv") {
+		return oracle.Tol{Rel: 1e-6, Scale: scale * scale}
+	}
+	return oracle.DefaultTol(scale)
+}
